@@ -34,12 +34,12 @@ Print Assumptions C07_roundtrip_oci.
    digest algorithm [an] that the specification table binds to the key spec, and
    so does the verifier; the payload is {media type, digest of the blob under
    [an], size, user metadata} and nothing else; VerifyBlob of the same blob
-   (content media type omitted or the same) succeeds and RETURNS THAT DESCRIPTOR
+   (read without error; content media type omitted or the same) succeeds and RETURNS THAT DESCRIPTOR
    (fix a20d301); the metadata read back is exactly the caller's metadata *)
 Theorem C07_roundtrip_blob : forall i b mt ok vb vmt vok kn a hn an,
   wf i = true -> i_target i = TBlob b mt ok -> i_vtarget i = TBlob vb vmt vok -> i_trusted i = true ->
   spec_row (i_ks i) spec_table = Some (kn, a, hn, an) ->
-  blob_digest vb an = blob_digest b an -> b_size vb = b_size b ->
+  b_readerr vb = false -> blob_digest vb an = blob_digest b an -> b_size vb = b_size b ->
   (vmt = "" \/ (vmt = mt /\ vok = true)) ->
   submap (i_vmeta i) (i_meta i) = true ->
   let signed := mk_descr mt (blob_digest b an) (b_size b) [] (i_meta i) "" "" "" in
